@@ -28,7 +28,8 @@ RULE = ("histories of set/set_lru (URL, serialized-LRU and stem-list forms mixed
         "options. Non-trivial = the store holds two URLs of which one is a stem-prefix of the other, or a URL stored "
         "twice, or a variant-equal pair with different spelling; distinct = distinct (class, options, history)")
 ASSUMPTIONS = [
-    "the reference key of a URL is the class's own public stem function output minus 'p:' stems",
+    "the reference key of a URL is, for the plain LRUTrie, the independent vlib/lruref.reference_stems (minus 'p:' stems); for the variant tries "
+    "the class's own public stem function (their stems are C07's subject)",
     "values are small ints / strings (never None: a stored None is indistinguishable from a miss by the documented API)",
 ]
 
@@ -71,7 +72,14 @@ def eval_history(case):
     model = {}
     stored_urls = []
 
+    plain = variant is None and not kw
+
     def stems_of(url):
+        if plain:
+            # for the plain LRUTrie the reference key comes from an independent implementation of the documented stems,
+            # so that a defect in the stems themselves (e.g. a spurious empty host stem) is not mirrored by the model
+            from vlib.lruref import reference_stems
+            return reference_stems(url, sa)
         return stemfn(url, suffix_aware=sa, **kw)
 
     ops = case["ops"]
